@@ -72,6 +72,10 @@ CHECKS = {
          'Bounded exhaustive verification (enumerative mode): all graphs of the stated sizes round-trip in all supported formats incl. 12-13 vertex graphs; every text of <=3 (thorough 4) menu lines per format and graph type is read as the reference reads it or rejected with ValueError.',
          'Trusted: reference readers, networkx/pydot for gml/dot parsing, CrossHair accounting. Outside: arbitrary gml/dot text, texts beyond the menus.',
          'DESIGN.md section 3 C14'),
+ 'C07': ('CrossHair/z3 non-interference check by self-composition: unseeded random draws and default object reprs are fresh symbolic values in two runs of the same command line; outputs must be equal for all of them',
+         'Bounded symbolic verification over a table of 41 command lines x 4 seeds and 9 seeded library generators: any dependence of the output on randomness drawn before seeding or on object identity is refuted with the two distinguishing values; correct runs are confirmed on their single concrete path.',
+         'Trusted: the two-phase RNG stub (same seed => same stream is assumed), the repr stub. Outside: PYTHONHASHSEED, working directory, command lines not in the table.',
+         'DESIGN.md section 3 C07'),
 }
 NA = {}
 
